@@ -467,6 +467,44 @@ def clause_f(facts, rep):
     rep.require(n >= 6, 'C13.f: transfer obligations found: %d' % n)
 
 
+def clause_g(facts, rep):
+    """Lifetime of the document's string buffers: nodes hold views into str_ / schema_str_ (kStringCopy), so a buffer
+    may be handed to Free only after the nodes of this document were destroyed on the same path (destroyDom's ~DNode,
+    or the base-class move assignment that releases the old nodes first)."""
+    gd = [f for f in facts.functions if f.cls_qn == GD and is_s(f)]
+    n = 0
+    for f in gd:
+        frees = []
+        for bid, i, s, e in f.walk():
+            if e.get('k') == 'call' and e.get('cname') == 'Free':
+                fld = [x['name'] for x in walk(e) if x.get('k') == 'member' and is_this_member(x)]
+                if fld:
+                    frees.append((bid, i, e, fld[0]))
+        if not frees:
+            continue
+        rep.fn(f)
+
+        def gen_stmt(st):
+            for e in walk(st):
+                if e.get('k') != 'call':
+                    continue
+                nm = e.get('cname') or ''
+                if nm.startswith('~') or nm in ('destroy', 'destroyDom'):
+                    return ['dom-destroyed']
+                if nm == 'operator=' and ('DNode' in (e.get('ccls') or '') or 'GenericNode' in (e.get('ccls') or '')):
+                    return ['dom-destroyed']
+            return []
+        M = Must(f, gen_stmt=gen_stmt)
+        for bid, i, e, fld in frees:
+            st = M.at(bid, i)
+            if st is None:
+                continue
+            n += 1
+            rep.check('dom-destroyed' in st, 'E8.buffer-lifetime', f.qn, 'Free(%s)' % fld, locline(e['loc']),
+                      'nodes of the document may still point into %s: the buffer may be released only after the nodes were destroyed on this path' % fld, facts.config)
+    rep.require(n >= 4, 'C13.g: Free sites of the document buffers found: %d' % n)
+
+
 def run(rep, tier):
     configs = ['K1'] if tier == 'quick' else ['K1', 'K3']
     for cfg in configs:
@@ -478,6 +516,7 @@ def run(rep, tier):
         clause_d(facts, rep)
         clause_e(facts, rep)
         clause_f(facts, rep)
+        clause_g(facts, rep)
     rep.trust('clang 14 front end', 'clang -verify for the compile-fail witnesses', 'libc realloc/free')
     rep.assumptions += [
         'decides type-level copy prohibition, raw-move pairing, destroy-before-overwrite with provenance, the arms of destroy() the discipline of owning raw-pointer fields and the completeness of Swap / move transfers of the document buffers (freeing-allocator instantiations)',
